@@ -41,9 +41,16 @@ def _call(name, *args):
     cargs = [ctypes.c_char_p(a.encode('utf-8')) for a in args]
     p = getattr(_lib, name)(*cargs)
     try:
-        return json.loads(ctypes.string_at(p).decode('utf-8'))
+        r = json.loads(ctypes.string_at(p).decode('utf-8'))
     finally:
         _lib.vq_free(p)
+    if isinstance(r, dict) and 'panic' in r:
+        raise RustPanic(r['panic'])
+    return r
+
+
+class RustPanic(RuntimeError):
+    """the repository's Rust code panicked (pyo3 would raise PanicException)"""
 
 
 def _mod(name, **attrs):
